@@ -116,7 +116,7 @@ func (v *VMap) validate(prefix string, tv reflect.Value) *VMap {
 						validName:  validName,
 						fieldName:  key,
 						cusMsg:     cusMsg,
-						reflectVal: reflect.ValueOf(val),
+						reflectVal: val,
 					})
 				default:
 					v.errBuf.WriteString(GetJoinFieldErr("", v.getKey(prefix, key), "valid \""+validName+"\" is no support"))
